@@ -879,6 +879,12 @@ bool opt_verify(opt_t * opt)
             verified = false;
         }
 
+        /* at least one thread is needed to get anything done */
+        if (opt->fanout < 1) {
+            err("%p: fanout must be > 0\n");
+            verified = false;
+        }
+
         /* connect and command timeouts must be reasonable */
         if (opt->connect_timeout < 0) {
             err("%p: connect timeout must be >= 0\n");
